@@ -11,6 +11,9 @@ r = subprocess.run(["git", "-C", "/repo", "apply", patch], capture_output=True, 
 if r.returncode != 0:
     print("patch does not apply:", r.stderr); sys.exit(2)
 res = {}
+import shutil, tempfile
+evbak = tempfile.mkdtemp(prefix="evbak")
+shutil.copytree(os.path.join(V, "evidence"), os.path.join(evbak, "evidence"))
 try:
     for p in props:
         o = subprocess.run([os.path.join(V, "check.py"), p], capture_output=True, text=True, cwd=V)
@@ -22,6 +25,9 @@ try:
 finally:
     subprocess.run(["git", "-C", "/repo", "checkout", "--", "."], check=True)
     subprocess.run(["git", "-C", "/repo", "clean", "-fdq", "--", "vhost/tests", "vhost-user-backend/tests"], check=False)
-    # rebuild the harness against the clean tree so that the next check does not pay for it
+    # evidence must describe the unchanged tree: put back what was there
+    shutil.rmtree(os.path.join(V, "evidence")); shutil.copytree(os.path.join(evbak, "evidence"), os.path.join(V, "evidence")); shutil.rmtree(evbak)
+    # regenerate Gen/*.lean from the clean tree, rebuild the harness against it
+    subprocess.run([sys.executable, os.path.join(V, "tools", "rs2lean.py")], capture_output=True)
     subprocess.run(["cargo", "build", "--release", "--offline"], cwd=os.path.join(V, "harness"), capture_output=True)
 print(json.dumps(res))
